@@ -287,7 +287,7 @@ func session(k int) {
 		}
 	}
 	run.CaseStart(id + " " + cs.String() + " " + l.String())
-	defer run.CaseEnd(id + " " + cs.String() + " " + l.String())
+	defer run.CaseEndDeferred(id + " " + cs.String() + " " + l.String())
 	truth := l.Truth()
 	info := l.InfoBytes(truth)
 	np := l.NumPieces()
@@ -475,7 +475,7 @@ func cachedCase(k int) {
 	csize := []int64{0, bs, 3 * bs, 1 << 30}[r.Intn(4)]
 	ttl := []time.Duration{time.Millisecond, 5 * time.Millisecond, time.Minute}[r.Intn(3)]
 	run.CaseStart(fmt.Sprintf("%s pieceLen=%d block=%d cache=%d ttl=%s", id, plen, bs, csize, ttl))
-	defer run.CaseEnd(fmt.Sprintf("%s pieceLen=%d block=%d cache=%d ttl=%s", id, plen, bs, csize, ttl))
+	defer run.CaseEndDeferred(fmt.Sprintf("%s pieceLen=%d block=%d cache=%d ttl=%s", id, plen, bs, csize, ttl))
 	data := make([]byte, plen)
 	r.Read(data)
 	// two sections, to involve the section reader as well
